@@ -5,6 +5,8 @@ About `getArgsSel` / `getArgNames` / `evalReadouts` / `getFluxes`, the functions
 (queries `argsf`, `argnames`, `argsftc`, `fluxes`).  Helper lemmas: Lemmas/ArgsSel.lean.
 -/
 import MxlVerif.Lemmas.ArgsSel
+import MxlVerif.Lemmas.StoichRow
+import MxlVerif.Lemmas.TimeCourse
 namespace Mxl.C01
 open Mxl
 
@@ -68,6 +70,29 @@ theorem C01_arg_names_derived_groups (c : Content) (cache : Cache) (dp dv : List
   simp only [hc, bind, Except.bind, pure, Except.pure, Except.ok.injEq, Prod.mk.injEq] at h
   obtain ⟨rfl, rfl⟩ := h
   simp [getArgNames]
+
+/-- **`get_stoichiometries_of_variable` is the variable's row of `get_stoichiometries`**: whenever the
+    table query answers, the row query answers with that variable's row (`KeyError` for a variable no
+    stoichiometry mentions) — computed coefficients evaluated at the same state and time. -/
+theorem C01_stoich_row_is_table_row {c : Content} (vars : Option (List (Name × Rat))) (t : Rat)
+    (x : Name) {tbl : List (Name × List (Name × Rat))} (h : getStoich c vars t = .ok tbl) :
+    getStoichOfVar c x vars t =
+      match tbl.lookup x with
+      | some row => .ok row
+      | none => .error (.keyError x) :=
+  getStoichOfVar_is_row vars t x h
+
+/-- **The time-course form is the pointwise form, row by row**: `get_args_time_course(df, **flags)`
+    is `get_args(row, index, **flags)` without the `time` column, for each row of the table. -/
+theorem C01_time_course_is_pointwise (c : Content) (cache : Cache) (hc : createCache c = .ok cache)
+    (rows : List (Rat × List (Name × Rat))) (f : ArgFlags) :
+    getArgsSelTC c rows f =
+      rows.mapM (fun r => getArgsSel c (some r.2) r.1 { f with time := false }) :=
+  getArgsSelTC_pointwise c cache hc rows f
+
+/-- the named right-hand side query with an explicit state is `get_right_hand_side` -/
+theorem C01_rhs_query_is_getRhs (c : Content) (vars : List (Name × Rat)) (t : Rat) :
+    getRhsQ c (some vars) t = getRhs c vars t := rfl
 
 /-! ### non-vacuity: a model with a readout over a data set and an earlier readout -/
 
